@@ -52,7 +52,7 @@ TraceInit ==
     /\ orcs = <<>> /\ outs = <<>> /\ snaps = <<>> /\ reached = <<>>
     /\ desc = Sessions[tid].descs[1] /\ orc = Null
     /\ pc = "idle" /\ prune = FALSE /\ nodes = <<>>
-    /\ prob = Null /\ rstrat = Null /\ rew = Null /\ fstrat = Null /\ res = Null /\ ro = Null
+    /\ prob = Null /\ rstrat = Null /\ rew = Null /\ fstrat = Null /\ res = Null /\ ro = [ok |-> FALSE, stop |-> TRUE]
     /\ hist = [b \in BOOLEAN |-> Null]
 
 Proto(ok, name) == IF ok THEN {} ELSE {"Protocol." \o name \o " pc=" \o pc}
@@ -75,7 +75,8 @@ TraceCall ==
     /\ dcur' = Ev.d /\ mode' = Ev.mode
     /\ prob' = Null /\ rstrat' = Null /\ rew' = Null /\ fstrat' = Null
     /\ fails' = fails \cup Proto(pc = "idle", "Call")
-    /\ UNCHANGED <<res, ro, hist, notes, outs, reached, snaps>>
+    /\ ro' = [ok |-> FALSE, stop |-> TRUE]
+    /\ UNCHANGED <<res, hist, notes, outs, reached, snaps>>
 
 \* the reachability phase does not depend on the pruning flag (C01, C04)
 PruneSame ==
